@@ -108,6 +108,7 @@ def canon_blocks(tree):
     * `t = E; return t` with t used nowhere else in the function is read as `return E`;
     * an annotated assignment of a local name is read as a plain assignment, and a `pass` that is not the only statement of its block is dropped;
     * `x = A if c else B` is read as `if c: x = A  else: x = B`;
+    * `u = CALL; a = u[0]; b = u[1]` with u used nowhere else is read as `a, b = CALL`;
     * `t = g(...); x = f(..., t, ...)` with t used nowhere else is read as `x = f(..., g(...), ...)` (a temporary introduced for a nested call)."""
     def flatten(stmts):
         out = []
@@ -156,6 +157,31 @@ def canon_blocks(tree):
                 for v in blocks:
                     v[-1].value = v[-2].value
                     del v[-2]
+        # `u = CALL; a = u[0]; b = u[1]; ...` (u occurring nowhere else, indices 0..n-1 in order, plain names on the left) is read as `a, b, ... = CALL`
+        counts = {}
+        for n in ast.walk(fn):
+            if isinstance(n, ast.Name):
+                counts[n.id] = counts.get(n.id, 0) + 1
+        for node in ast.walk(fn):
+            for owner, f, v in list(_blocks(node)):
+                i = 0
+                while i < len(v):
+                    a = v[i]
+                    if isinstance(a, ast.Assign) and len(a.targets) == 1 and isinstance(a.targets[0], ast.Name) and isinstance(a.value, ast.Call):
+                        u, k, names = a.targets[0].id, 0, []
+                        while i + 1 + k < len(v):
+                            b = v[i + 1 + k]
+                            if isinstance(b, ast.Assign) and len(b.targets) == 1 and isinstance(b.targets[0], ast.Name) and isinstance(b.value, ast.Subscript) \
+                                    and isinstance(b.value.value, ast.Name) and b.value.value.id == u and isinstance(b.value.slice, ast.Constant) and b.value.slice.value == k:
+                                names.append(b.targets[0])
+                                k += 1
+                            else:
+                                break
+                        if k >= 2 and counts.get(u) == 1 + k and len({x.id for x in names}) == k:
+                            tup = ast.copy_location(ast.Tuple(elts=names, ctx=ast.Store()), a)
+                            v[i] = ast.copy_location(ast.Assign(targets=[tup], value=a.value, type_comment=None), a)
+                            del v[i + 1:i + 1 + k]
+                    i += 1
         # `t = g(...); x = f(..., t, ...)` (t occurring nowhere else in the function, t a direct positional argument of the call that is the
         # value of the next statement, every earlier argument free of calls) is read as `x = f(..., g(...), ...)`
         changed = True
